@@ -167,6 +167,9 @@ def runHistory (steps : List String) : Verdict := Id.run do
 def handleC13 (fields : List String) : Verdict :=
   match fields with
   | ["hist", body] => runHistory ((body.splitOn ";").filter (fun s => !s.trimAscii.toString.isEmpty))
+  | ["share", what] =>
+    { modelOk := false, modelOut := "one shared node per structure",
+      oracle := some s!"two different nodes with the structure {what} were handed out by one environment" }
   | ["defs", main, defsS, result, fresh] =>
     -- a formula with `{references}` evaluated in a long-lived ParsedFormula whose definitions change:
     -- `result` is what that evaluation returned, `fresh` what a new ParsedFormula with the same
